@@ -277,12 +277,16 @@ structure Fixes where
   stage : Bool
   /-- the result code is taken from the conversion's own result, not from a stale `errno` / a re-scan -/
   rc : Bool
-  /-- wcstombs_s / wcsrtombs_s / wctomb_s accept a conversion of length 0 -/
+  /-- wcstombs_s / wcsrtombs_s accept a conversion of length 0 -/
   zero : Bool
+  /-- mbstowcs_s / mbsrtowcs_s do not clear through a NULL dest when src / srcp is NULL -/
+  nullsrc : Bool
+  /-- wcsrtombs_s stores the terminator in the build without SAFECLIB_STR_NULL_SLACK too -/
+  term : Bool
   deriving DecidableEq, Repr
 
-def unrepaired : Fixes := ⟨false, false, false, false⟩
-def allFixed : Fixes := ⟨true, true, true, true⟩
+def unrepaired : Fixes := ⟨false, false, false, false, false, false⟩
+def allFixed : Fixes := ⟨true, true, true, true, true, true⟩
 /-- the code the driver runs: flip when the fixes are applied to /repo -/
 def current : Fixes := unrepaired
 
@@ -381,7 +385,7 @@ def mbstowcs_s (cfg : Cfg) (a : SArgs) : Out :=
   match a.src with
   | none =>
     match mkD a with
-    | none => { ret := ESNULLP, retval := some 0, nullw := !cfg.slack || a.dmax != 0, ev := [ESNULLP] }
+    | none => { ret := ESNULLP, retval := some 0, nullw := !cfg.fx.nullsrc && (!cfg.slack || a.dmax != 0), ev := [ESNULLP] }
     | some d => { ret := ESNULLP, retval := some 0, dest := some (clearCells cfg.slack d a.dmax), ev := [ESNULLP] }
   | some mem =>
     match (match mkD a with | some d => entryW cfg a true d | none => none) with
@@ -398,7 +402,7 @@ def mbsrtowcs_s (cfg : Cfg) (a : SArgs) : Out :=
   if a.psNull then { ret := ESNULLP, retval := some 0, dest := mkD a, ev := [ESNULLP] } else
   if a.srcpNull then
     match mkD a with
-    | none => { ret := ESNULLP, retval := some 0, nullw := !cfg.slack || a.dmax != 0, ev := [ESNULLP], st := a.ps }
+    | none => { ret := ESNULLP, retval := some 0, nullw := !cfg.fx.nullsrc && (!cfg.slack || a.dmax != 0), ev := [ESNULLP], st := a.ps }
     | some d => { ret := ESNULLP, retval := some 0, dest := some (clearCells cfg.slack d a.dmax), ev := [ESNULLP], st := a.ps }
   else
   match a.src with
@@ -470,7 +474,7 @@ def wcsrtombs_s (cfg : Cfg) (a : SArgs) : Out :=
     | some mem =>
       if a.alias then { ret := ESOVRLP, retval := some 0, dest := mkD a, ev := [ESOVRLP] } else
       let r := Libc.wcsrtombs cfg.loc a.dest.isNone mem (libcLen cfg a)
-      tailB cfg a r false
+      tailB cfg a r cfg.fx.term
 
 /-- arguments of the single-character converters -/
 structure CArgs where
@@ -526,7 +530,7 @@ def wctomb_s (cfg : Cfg) (a : CArgs) : Out :=
   | none =>
     let (bs, len?, e) := Libc.wctomb cfg.loc a.dest.isNone a.wc
     let d0 : Option D := a.dest.map fun c => { cells := c }
-    let fits := match len? with | some l => (l > 0 || (cfg.fx.zero && a.dest.isNone)) && l < a.dmax | none => false
+    let fits := match len? with | some l => l > 0 && l < a.dmax | none => false
     let dAfter := d0.map fun d => if cfg.fx.stage && !fits then d else d.write 0 bs
     let errno1 := if e then EILSEQ else a.errno0
     let rv := match len? with | some l => l | none => SIZE_MAX
